@@ -608,12 +608,12 @@ CLAIMS = [
           "to (not including) the first of SP TAB LF CR FF ( ) [ ] ; or end of input; the slice version returns exactly "
           "input[start..index], the stream version copies exactly the consumed bytes; slice indexing stays in bounds; a str is "
           "produced only through UTF-8 validation",
-          "symbols of any length (loop cut), arbitrary input bytes", configs=("fast",), also=("C12", "C17", "C03", "C01", "C13")),
+          "symbols of any length (loop cut), arbitrary input bytes", configs=("fast",), also=("C12", "C17", "C03", "C01", "C13", "C11")),
     Claim("c06_string_scanners", "C06", "quick", claim_string_scanners,
           "the byte-slice and the stream R6RS string scanner against one specification: every byte up to the next quote / "
           "backslash is kept, ranges copied by the slice version run exactly from `start` to that byte, a backslash enters the "
           "escape decoder, the closing quote ends the string and is consumed, end of input is an EOF error, no index panic",
-          "strings of any length (loop cut), arbitrary bytes, arbitrary escape-decoder behaviour", configs=("fast",), also=("C17", "C03", "C01")),
+          "strings of any length (loop cut), arbitrary bytes, arbitrary escape-decoder behaviour", configs=("fast",), also=("C17", "C03", "C01", "C11")),
     Claim("c06_elisp_string_scanners", "C06", "quick", claim_elisp_string_scanners,
           "the stream and the byte-slice Emacs string scanner against one specification: classification flags start false, a raw "
           "byte > 127 (and only that) marks the string non-ASCII, escapes mark it unibyte / multibyte as the decoder reports, the "
